@@ -26,6 +26,7 @@ type ConnRec struct {
 	Closed   []ClosedRec
 	Srv      *vnet.TCPConn // server side socket
 	HandleReturnedAt time.Duration
+	AuthAt   []time.Duration
 }
 
 type ProbeRec struct {
@@ -40,6 +41,7 @@ type ClosedRec struct {
 }
 
 func (c *ConnRec) AddAuthenticated(accessKey string) {
+	c.AuthAt = append(c.AuthAt, vrt.NowQuiet().Sub(vrt.Epoch))
 	c.Auth = append(c.Auth, accessKey)
 	c.Order = append(c.Order, "auth:"+accessKey)
 }
